@@ -70,6 +70,7 @@ def run(ctx):
     ops = probes.gen_ops(rng, ctx.n(700, 8000))
     # fixed probes for the version-sensitive spots
     ops += [["R", "3", "9_8/CVSS:3.1/AV:N/AC:L/PR:N/UI:N/S:U/C:H/I:H/A:H"], ["R", "2", "7.5/AV:N/AC:L/Au:N/C:P/I:P/A:P"],
+            ["M"],
             ["L", ["-4", "-v", "CVSS:4.0/AV:N/AC:L/AT:N/PR:N/UI:N/VC:H/VI:H/VA:H/SC:H/SI:H/SA:H"], []],
             ["L", ["-2", "-j", "-v", "AV:N/AC:L/Au:N/C:P/I:P/A:P"], []], ["L", ["-j", "-v", "CVSS:3.1/AV:N/AC:L/PR:N/UI:N/S:U/C:H/I:H/A:H"], []],
             ["L", ["-3", "-n", "-a", "-v", "CVSS:3.0/AV:N/AC:L/PR:N/UI:N/S:U/C:H/I:H/A:H/E:F"], []],
